@@ -190,6 +190,15 @@ def install(pe):
     E["math.log"] = lambda pe, a, k: _map1(pe, "log", a[0])
     E["math.exp"] = lambda pe, a, k: _map1(pe, "exp", a[0])
     E["math.sqrt"] = lambda pe, a, k: _map1(pe, "sqrt", a[0])
+
+    def _gamma(pe, a, k):
+        c = dag.as_const(a[0]) if isinstance(a[0], Node) else a[0]
+        if isinstance(c, (int, Fraction)) and not isinstance(c, bool) and Fraction(c).denominator == 1 and 1 <= int(c) <= 60:
+            return Fraction(math.factorial(int(c) - 1))
+        return dag.fn("gamma", dag.tonode(a[0]))
+
+    E["math.gamma"] = _gamma
+    E["math.factorial"] = lambda pe, a, k: Fraction(math.factorial(int(a[0])))
     E["math.isclose"] = lambda pe, a, k: _isclose(pe, a, k)
     E["math.floor"] = lambda pe, a, k: math.floor(_exact(pe, a[0]))
     E["math.ceil"] = lambda pe, a, k: math.ceil(_exact(pe, a[0]))
